@@ -37,7 +37,7 @@ P = {
  'C10': dict(tech='regex-AST set algebra on the ExPASy tables, string-provenance (taint) of the exception, shape rules of pool assembly',
     text="Decides for ALL strings (set algebra on regex ASTs, no matching) that site and range tables denote the same windows and pair safely; that the raw --cleavage-exception never reaches a digestion sink un-normalised and sink literals are table members; and the assembly shape (first-stop cut, leading-X strip, I/L pairing, cds_start_nf threading). The ExPASy rules themselves have no independent oracle here.",
     ref='§4 C10'),
- 'C11': dict(tech='affine abstract interpretation with strand case split, typestate of the pointer cache, writer/reader agreement',
+ 'C11': dict(tech='affine abstract interpretation with strand case split, affine loop-iteration summaries decided over cone domains (exon loops), typestate of the pointer cache, writer/reader agreement, memo-key completeness',
     text="Decides: gene<->genomic conversions are affine inverses per strand, feature mappings are strand-equivariant and length preserving, intronic positions raise, the on-disk cache registers only after a successful load and evicts pairwise, GTF/index writers and readers agree. Exon-loop inverses and sequence extraction are NOT decided.",
     ref='§4 C11'),
  'C12': dict(tech='key-set agreement, who-may-access layering, validate-before-load dominance',
@@ -74,7 +74,19 @@ NOTE = ("Trusted: python ast parser; sa/ engine (CFG with exception edges inside
         "floor is exit 2, never a pass. Claims necessary structural clauses only, never the behaviour.")
 
 checks, na = [], []
+TECH_COMMON = ('; rules run on a canonical normal form of the functions (helpers inlined, guards as decision regions, locals propagated) and on '
+               'must-facts / path conditions (CFG dataflow with truth-table decisions), so that behaviour-preserving rewrites are not reported; a changed '
+               'function that is provably a rewrite of its reference version (identical canonical form) is analysed in its reference shape')
 for pid in sorted(P):
+    evp = os.path.join(V, 'evidence', f'{pid}.json')
+    if os.path.exists(evp):
+        ev = json.load(open(evp))['coverage']
+        cl = ev.get('clauses', [])
+        nd = ev.get('not_decided', [])
+        if cl:
+            ids = ', '.join(c.split(' ')[0] for c in cl)
+            P[pid]['text'] = (f"Static analysis (stdlib ast; nothing is imported or run) decides {len(cl)} necessary structural clauses of the property on all paths of "
+                              f"the analysed functions ({ids}): " + ' | '.join(c[:230] for c in cl) + '. NOT decided (the behaviour itself): ' + '; '.join(nd) + '.')
     if os.path.exists(os.path.join(V, 'rules', f'{pid}.py')):
         checks.append({
             'property_id': pid,
@@ -85,7 +97,7 @@ for pid in sorted(P):
             'engine': 'sa',
             'level_claimed': {'category': 'other', 'text': P[pid]['text'], 'design_ref': 'DESIGN.md ' + P[pid]['ref']},
             'level_note': NOTE,
-            'technique': 'static analysis: ' + P[pid]['tech'],
+            'technique': 'static analysis: ' + P[pid]['tech'] + TECH_COMMON,
         })
     else:
         na.append({'property_id': pid, 'reason': 'check not built yet in this session (design: DESIGN.md ' + P[pid]['ref'] + ')'})
@@ -96,7 +108,7 @@ m = {
     'hooks': {'guard': 'MOPEPGEN_VERIF', 'enable': 'not used - static analysis installs no hooks in /repo',
               'baseline_off_cmd': BASE, 'source_commits': [], 'add_only': True},
     'engines': [{'name': 'sa', 'path': '/verif/sa', 'serves_properties': [c['property_id'] for c in checks],
-                 'kind_free_text': 'repo-specific static analysis on stdlib ast: CFG + path enumeration with literal tracking, dominance, effect sets, polarity lattice, affine strand-split interpreter, regex-AST algebra, provenance'}],
+                 'kind_free_text': 'repo-specific static analysis on stdlib ast: canonical normal form + equivalence with a reference snapshot, CFG + path enumeration with literal tracking, must-facts dataflow with truth-table decisions, dominance, effect sets, polarity lattice, affine strand-split interpreter with loop-iteration summaries decided over cones, regex-AST algebra, provenance'}],
     'checks': checks,
     'notes': 'Family: static analysis only. ./check exits 0 held / 1 VIOLATION / 2 analysis broken. known_findings.txt lists recorded defects and fixed: entries.',
     'not_applicable': na,
